@@ -85,10 +85,48 @@ func (g *opsEng) indexPkgVars() {
 				}
 			}
 		}
+		// element stores `table[K] = v` written as statements of an init function complete the table's
+		// initialisation (they run before any other code of the module can read it); they are kept as
+		// entries, in order, instead of disqualifying the table
+		initStore := map[*ast.AssignStmt]bool{}
+		for _, f := range p.Syntax {
+			for _, d := range f.Decls {
+				fd, ok := d.(*ast.FuncDecl)
+				if !ok || fd.Recv != nil || fd.Name.Name != "init" || fd.Body == nil {
+					continue
+				}
+				for _, s := range fd.Body.List {
+					as, ok := s.(*ast.AssignStmt)
+					if !ok || as.Tok != token.ASSIGN || len(as.Lhs) != 1 || len(as.Rhs) != 1 {
+						continue
+					}
+					ix, ok := ast.Unparen(as.Lhs[0]).(*ast.IndexExpr)
+					if !ok {
+						continue
+					}
+					var v *types.Var
+					switch x := ast.Unparen(ix.X).(type) {
+					case *ast.Ident:
+						v, _ = info.Uses[x].(*types.Var)
+					}
+					if !isPkgLevel(v) || g.pkgVars[v] == nil {
+						continue
+					}
+					if _, isMap := v.Type().Underlying().(*types.Map); !isMap {
+						continue
+					}
+					initStore[as] = true
+					g.pkgVars[v].stores = append(g.pkgVars[v].stores, [2]ast.Expr{ix.Index, as.Rhs[0]})
+				}
+			}
+		}
 		for _, f := range p.Syntax {
 			ast.Inspect(f, func(n ast.Node) bool {
 				switch x := n.(type) {
 				case *ast.AssignStmt:
+					if initStore[x] {
+						return true
+					}
 					for _, l := range x.Lhs {
 						mark(l)
 					}
@@ -122,8 +160,12 @@ func (g *opsEng) indexPkgVars() {
 }
 
 // pkgTable: the table a package-level variable is initialised with (unknown
-// when it is not such a table or may be modified).
-func (g *opsEng) pkgTable(v *types.Var) opsVal {
+// when it is not such a table or may be modified). The initialiser is a
+// composite literal, or a call of a parameterless function (or function
+// literal) of the module that builds the table: a literal, element stores with
+// constant keys, and a return.
+func (ev *opsEv) pkgTable(v *types.Var) opsVal {
+	g := ev.cfg.g
 	if v == nil || v.IsField() || v.Pkg() == nil || v.Parent() != v.Pkg().Scope() {
 		return opsVal{}
 	}
@@ -134,11 +176,74 @@ func (g *opsEng) pkgTable(v *types.Var) opsVal {
 	if pv == nil || pv.mutated {
 		return opsVal{}
 	}
-	cl, ok := ast.Unparen(pv.init).(*ast.CompositeLit)
-	if !ok {
-		return opsVal{}
+	if pv.done {
+		return pv.val
 	}
-	return g.tableOf(pv.info, cl)
+	pv.done = true // also guards against initialisers that refer to themselves
+	var res opsVal
+	switch x := ast.Unparen(pv.init).(type) {
+	case *ast.CompositeLit:
+		res = g.tableOf(pv.info, x)
+	case *ast.CallExpr:
+		if len(x.Args) != 0 {
+			break
+		}
+		var body *ast.BlockStmt
+		var end token.Pos
+		info := pv.info
+		if lit, ok := ast.Unparen(x.Fun).(*ast.FuncLit); ok {
+			body, end = lit.Body, lit.End()
+		} else if cal := CalleeOf(pv.info, x); cal != nil {
+			if fd := g.decls[cal]; fd != nil && fd.Recv == nil {
+				body, end, info = fd.Body, fd.End(), g.info(fd)
+			}
+		}
+		if body == nil {
+			break
+		}
+		// walked without any assumption: the builder does not depend on the dispatched node
+		cfg := &opsCfg{g: g, maxDepth: 2, nodeDims: map[*types.TypeName]*types.Const{}, opndDims: map[*types.TypeName]*types.Const{}}
+		paths, ok := g.walkBody(cfg, body, end, info, nil, 0, 0)
+		if !ok {
+			break
+		}
+		var tbl *opsTable
+		for _, p := range paths {
+			if p.out == cPanic {
+				continue
+			}
+			if len(p.ret) != 1 || p.ret[0].k != ovTable || (tbl != nil && tbl != p.ret[0].tbl) {
+				tbl = nil
+				break
+			}
+			tbl = p.ret[0].tbl
+		}
+		if tbl != nil {
+			res = opsVal{k: ovTable, tbl: tbl}
+		}
+	}
+	if res.k == ovTable && len(pv.stores) > 0 {
+		if !res.tbl.isMap {
+			res = opsVal{}
+		} else {
+			t := res.tbl
+			for _, st := range pv.stores {
+				t = t.with(st[0], st[1])
+			}
+			res = opsVal{k: ovTable, tbl: t}
+		}
+	}
+	pv.val = res
+	return res
+}
+
+// with: the map table after the element store t[key] = val (a later entry
+// overrides an earlier one with the same key: lookups run last to first).
+func (t *opsTable) with(key, val ast.Expr) *opsTable {
+	n := *t
+	n.keys = append(append([]ast.Expr(nil), t.keys...), key)
+	n.vals = append(append([]ast.Expr(nil), t.vals...), val)
+	return &n
 }
 
 // tableOf: the composite literal as a table (no events are produced: the
@@ -257,8 +362,8 @@ func (ev *opsEv) lookup(st *opsSt, t *opsTable, key opsVal) (val opsVal, found, 
 		}
 		return ev.pureEval(t, t.vals[i]), true, true
 	}
-	for i, ke := range t.keys {
-		same, ok := opsSameKey(ev.pureEval(t, ke), key)
+	for i := len(t.keys) - 1; i >= 0; i-- {
+		same, ok := opsSameKey(ev.pureEval(t, t.keys[i]), key)
 		if !ok {
 			return opsVal{}, false, false
 		}
